@@ -51,13 +51,16 @@ class Watch:
 
 
 class ParComp(Process):
-    """compartment process: adds its timestep to v/x"""
-    defaults = {'timestep': 1}
+    """compartment process: adds 1 to v/x; with empty=True it reports nothing
+    (an empty update is a legal update)"""
+    defaults = {'timestep': 1, 'empty': False}
 
     def ports_schema(self):
         return {'v': {'x': dict(sr.X_SCHEMA)}}
 
     def next_update(self, timestep, states):
+        if self.parameters['empty']:
+            return {}
         return {'v': {'x': 1}}
 
 
@@ -79,8 +82,10 @@ class Bomb(Process):
         return {}
 
 
-def comp(name, ts, parallel=True):
-    cfg = {'name': 'r%d_%s' % (_RUN[0], name), 'timestep': ts}
+def comp(name, ts, parallel=True, empty=False):
+    if isinstance(ts, (list, tuple)):       # (timestep, 'empty')
+        ts, empty = ts[0], True
+    cfg = {'name': 'r%d_%s' % (_RUN[0], name), 'timestep': ts, 'empty': empty}
     if parallel:
         cfg['_parallel'] = True
     return {'processes': {'p': ParComp(cfg)}, 'topology': {'p': {'v': ('v',)}},
@@ -303,6 +308,14 @@ def protocol_scenarios(tier):
                         'ticks': 8, 'finish': finish, 'long': True})
     for finish in (['end'], ['end', 'end'], ['gc'], []):
         out.append({'comps': [('a', 1), ('b', 2)], 'ops': {}, 'ticks': 2, 'finish': finish})
+    # the process that is deleted / divided away reports an empty update
+    for op_tick, long_ in ((0, False), (1, False), (0, True), (1, True)):
+        out.append({'comps': [('a', (3 if long_ else 1, 'empty')), ('b', 2)],
+                    'ops': {op_tick: ('del', 'a')}, 'ticks': 8 if long_ else 3,
+                    'finish': ['end'], 'long': long_})
+        out.append({'comps': [('a', (3 if long_ else 1, 'empty')), ('b', 1)],
+                    'ops': {op_tick: ('div', 'a', 'c', 'd', 1)}, 'ticks': 8 if long_ else 3,
+                    'finish': ['end', 'end'], 'long': long_})
     # an exception raised by a callback while parallel updates are in flight
     for at in (1, 2):
         for finish in (['end'], ['end', 'end'], ['gc']):
@@ -311,5 +324,5 @@ def protocol_scenarios(tier):
     out.append({'comps': [('a', 2)], 'ops': {0: ('gen', 'g', 3), 2: ('del', 'g')}, 'ticks': 4,
                 'finish': ['end']})
     if tier == 'quick':
-        return out[::2] + [out[1]]
+        return out[::2] + [out[1]] + [o for o in out[1::2] if isinstance(o['comps'][0][1], tuple)]
     return out
